@@ -25,28 +25,15 @@ Inductive case_t :=
   (* updatetflag: IOAPI file created from SDATE/STIME/TSTEP; TFLAG rows written, then decoded *)
   | CaseUT (sdate stime tstep : Z) (n : nat) (oflags : option (list (Z * Z))) (odec : dts).
 
-(* rounding band of the fractional-year path: elementwise either neighbour *)
-Fixpoint band_rows (o a b : list (list Z)) : bool :=
-  match o, a, b with
-  | [], [], [] => true
-  | x :: o', y :: a', z :: b' => (zlist_eqb x y || zlist_eqb x z) && band_rows o' a' b'
-  | _, _, _ => false
-  end.
-Definition band_eqb (o a b : dts) : bool :=
-  match o, a, b with
-  | Some lo, Some la, Some lb => band_rows lo la lb
-  | _, _, _ => dts_eqb o a
-  end.
-
 Definition us_all (o : list (list Z)) : option (list Z) := all_some (map us_of_dt o).
 
 Definition fixed_leap (c : cal_t) : bool := match c with CalAllLeap => true | _ => false end.
 
-Definition model_cf (alt : bool) (c : cal_t) (u : unit_t) (r : refdate) (b : bmode) (vals : list Z) : dts :=
+Definition model_cf (c : cal_t) (u : unit_t) (r : refdate) (b : bmode) (vals : list Z) : dts :=
   match impl_bounds_vals b vals with
   | Some v => match c with
               | CalStd => impl_cf_std u r v
-              | _ => impl_cf_fixed_gen alt (fixed_leap c) u r v
+              | _ => impl_cf_fixed (fixed_leap c) u r v
               end
   | None => None
   end.
@@ -64,7 +51,7 @@ Definition spec_cf (c : cal_t) (u : unit_t) (r : refdate) (v : list Z) : dts :=
 Definition checkF (c : case_t) : bool :=
   match c with
   | CaseCF cal u r b vals obs d2n idx =>
-      band_eqb obs (model_cf false cal u r b vals) (model_cf true cal u r b vals)
+      dts_eqb obs (model_cf cal u r b vals)
       && match d2n, obs with
          | Some l, Some o => zl_opt_eqb (impl_date2num u r o) (Some l)
          | _, _ => true
@@ -146,29 +133,7 @@ Definition checkS (c : case_t) : bool :=
       else true
   end.
 
-Definition region (c : case_t) : nat :=
-  match c with
-  | CaseCF CalStd _ _ _ _ _ _ _ => 0%nat
-  | CaseCF cal u r b vals _ _ _ =>
-      match impl_bounds_vals b vals with
-      | Some v =>
-          match impl_parse r with
-          | Some (_, m0, d0, _, _, _, _) =>
-              if negb ((m0 =? 1) && (d0 =? 1)) then 3%nat
-              else match u with
-                   | USeconds => 2%nat
-                   | _ => if dom_fixed u r v then
-                            match spec_cf_fixed (fixed_leap cal) u r v with
-                            | Some sp => if forallb row_ok sp then 0%nat else 4%nat
-                            | None => 0%nat
-                            end
-                          else 1%nat
-                   end
-          | None => 0%nat
-          end
-      | None => 0%nat
-      end
-  | _ => 0%nat
-  end.
+(* no known-defect region left: every former region is repaired in /repo *)
+Definition region (c : case_t) : nat := 0%nat.
 
 Definition check (c : case_t) : verdict := (checkF c, checkS c, region c).
